@@ -18,6 +18,7 @@ helper functions, local aliases) does not matter.
 """
 import ast
 import struct as _struct
+import io as _io
 
 from .core import AnalysisError
 from .facts import get_facts
@@ -447,6 +448,12 @@ class CodecInterp(Interp):
             return getattr(v, attr)
         if isinstance(v, bytes):
             return Native('bytes.%s' % attr, lambda it, a, k, _m=getattr(v, attr): _m(*a, **k), False)
+        if isinstance(v, _io.BytesIO) and attr in ('write', 'getvalue', 'read', 'seek', 'truncate', 'tell'):
+            def bio(it, a, k, _m=getattr(v, attr)):
+                if any(not isinstance(x, (bytes, int)) for x in a):
+                    raise Uninterpretable('BytesIO.%s of %r' % (attr, a))
+                return _m(*a)
+            return Native('BytesIO.%s' % attr, bio)
         return Interp.getattr(self, v, attr, node)
 
     def index_value(self, i):
@@ -531,7 +538,7 @@ class CodecInterp(Interp):
     def nat_range(self, args, kwargs):
         if len(args) == 1 and is_sym(args[0]):
             return SymRange(args[0])
-        if len(args) == 1 and isinstance(args[0], int) and args[0] > 1 and self.depth['unpack']:
+        if len(args) == 1 and isinstance(args[0], int) and args[0] > 1 and self.depth['unpack'] and not getattr(self, 'concrete', False):
             return SymRange(args[0])        # summarised: the body of a counted decoding loop is interpreted once
         return Interp.nat_range(self, args, kwargs)
 
@@ -589,7 +596,7 @@ class CodecInterp(Interp):
         if name in ('_pack2', '_pack3') and args and isinstance(args[0], SymAny):
             self.written.append(('nested', args[0].label))
             return None
-        if name == '_unpack' and self.depth['unpack'] >= 1:
+        if name == '_unpack' and self.depth['unpack'] >= 1 and not getattr(self, 'concrete', False):
             self.reads.append(('nested',))
             if getattr(self, 'nested_script', None):
                 return self.nested_script.pop(0)
@@ -825,3 +832,39 @@ def map_with_key(repo, key):
         raise AnalysisError('unpack of a map with a list key is outside the interpretable subset: %s' % e)
     finally:
         it.nested_script = None
+
+
+def dumps_sequence(repo, values):
+    """dumps() applied to each concrete value in turn on one interpreter -> list of bytes | exception name"""
+    it = repo.memo('codec-interp', lambda: CodecInterp(repo))
+    it.env['compatibility'] = False
+    it.short_at = None
+    dumps = it.env.get('dumps')
+    out = []
+    for v in values:
+        it.reset_path([])
+        if v == 'UNSUPPORTED':
+            v = [1, 2, Obj(next(c for c in it.facts.classes.values() if c.name != 'Ext'), {}, 'an object')]
+        try:
+            out.append(it.call(dumps, [v], {}))
+        except InterpRaise as e:
+            out.append(e.exc_name)
+        except Uninterpretable as e:
+            raise AnalysisError('dumps is outside the interpretable subset: %s' % e)
+    return out
+
+
+def loads_value(repo, data):
+    it = repo.memo('codec-interp', lambda: CodecInterp(repo))
+    it.env['compatibility'] = False
+    it.short_at = None
+    it.reset_path([])
+    it.concrete = True
+    try:
+        return it.call(it.env.get('loads'), [data], {}), None
+    except InterpRaise as e:
+        return None, e.exc_name
+    except Uninterpretable as e:
+        raise AnalysisError('loads is outside the interpretable subset: %s' % e)
+    finally:
+        it.concrete = False
